@@ -8,6 +8,29 @@ HERE = os.path.dirname(os.path.dirname(os.path.abspath(__file__)))
 
 # id -> (technique, level text, level note, design ref)
 CHECKS = {
+    "C01": (
+        "explicit-state exploration of object graphs (all configurations within k deviations of three poles, 8 collection types) driven through save/load cycle histories on the real io.save/io.load, invariant = structural equality + exact fixpoint",
+        "For each of the 8 collection types every object-graph configuration within 2 (quick) / 3 (thorough) deviations of the minimal, skeleton and maximal poles "
+        "(75 axes: every optional field, list lengths 0/1/2, all 9 geometry kinds + none, sharing of sub-objects, audio_dir) is saved and loaded with fresh calls through a real file "
+        "for 2/3 consecutive cycles; loaded == original (Pydantic equality plus an independent field walker), same type, and object/document fixpoint are checked on every state. "
+        "A reflective audit lists declared fields the generator cannot populate (currently none).",
+        "Bounded: list lengths <= 2, <= 3 simultaneous deviations from a pole, simple-label terms, distinct feature labels per list. pydantic/json are part of the executed system.",
+        "DESIGN.md 4/C01",
+    ),
+    "C13": (
+        "exhaustive enumeration of all labelled graphs on <= 6 (quick) / <= 7 (thorough) nodes on the real group_sound_events against union-find",
+        "Every labelled undirected graph on n = 0..6 nodes (33 868; thorough adds all 2 097 152 graphs on 7 nodes) is realised as sound events + a recording comparison function; "
+        "partition, order, connected components (union-find), empty input, result type and the exact set of comparison calls are checked on each.",
+        "Graphs above 7 nodes and the property's 'random larger graphs' clause (sampling, another family) are not covered. Duplicate objects in the input are outside the statement.",
+        "DESIGN.md 4/C13",
+    ),
+    "C14": (
+        "exhaustive product over a dyadic lattice of clip start/length/duration/hop/flag on the real segment_clip against a Fraction window model",
+        "Full product clip start x length x duration x hop (incl. None) x include_incomplete on a dyadic lattice, plus all non-positive duration/hop combinations; "
+        "windows must equal the Fraction model exactly (order, bounds), ids must be deterministic / distinct / parent-dependent, coverage holds when hop <= duration.",
+        "Dyadic lattice only (float arithmetic exact); zero-length parent with include_incomplete is not defined by the statement and not judged.",
+        "DESIGN.md 4/C14",
+    ),
     "C12": (
         "exhaustive small-scope enumeration of interval/geometry/clip placements x thresholds on the real functions against a Fraction reference model",
         "Every ordered pair of lattice intervals x every threshold setting, every ordered pair of 36 pooled geometries (9 types) x thresholds x axis, "
